@@ -984,6 +984,14 @@ def shape_gate(P, R, b):
                 l, op, rr = r
                 if isinstance(l, dict) and l.get('k') == 'un' and l['op'] == '*' and is_var(l['e'], pv) and op == '==' and const_of(rr) in (ord('+'), ord('-')):
                     m = True
+                if isinstance(l, dict) and l.get('k') == 'bin' and l.get('op') == '=' and isinstance(l.get('r'), dict):
+                    l = l['r']
+                if is_var(l) and l.get('sc') == 'local':
+                    # the result of the search kept in a local (`sep = strchr(pw, ' ')`, also inside the condition)
+                    ds = [(d.ev.get('rhs') if d.ev['k'] == 'store' else d.ev.get('init')) for d in f.local_defs(l['name'])]
+                    ds = [d for d in ds if d is not None]
+                    if ds and all(isinstance(d, dict) and d.get('k') == 'callref' and d.get('callee') == 'strchr' for d in ds):
+                        l = ds[0]
                 if isinstance(l, dict) and l.get('k') == 'callref' and l.get('callee') == 'strchr' and is_var(l['args'][0], pv) and const_of(l['args'][1]) == 32 and const_of(rr) == 0:
                     sp = (op == '!=')
             return (m, sp)
@@ -998,6 +1006,55 @@ def shape_gate(P, R, b):
             sts = before.get(site.key, set())
             R.ob('C06.GRD.2', bool(sts) and all(m for m, sp in sts), site, 'the password is %s only after the mode-prefix test (+ or -)' % nm, key='pw:%s:modes' % nm.split()[0])
             R.ob('C06.GRD.2', bool(sts) and all(sp for m, sp in sts), site, 'the password is %s only after the account/password separator test' % nm, key='pw:%s:separator' % nm.split()[0])
+    # "<modes> <account> <password>" has a password: blanks alone after the account are not one.  On every path to the store
+    # and to the builder some test established that a byte other than the blank follows the separator - the byte at the
+    # end of a strspn() over blanks, or the byte a blank-skipping loop over a pointer taken at the separator stops at
+    for s in stores:
+        f = s.fn
+        src = s.ev['args'][1] if s.ev['k'] == 'call' else s.ev.get('rhs')
+        pv = root_var(src)['name'] if root_var(src) is not None else None
+        seps = set()
+        for t in f.sites():
+            for ex in rules.event_exprs(t.ev):
+                for x in walk(ex):
+                    if isinstance(x, dict) and x.get('k') == 'bin' and x.get('op') == '=' and is_var(x.get('l')) and isinstance(x.get('r'), dict) and x['r'].get('k') == 'callref' and x['r'].get('callee') in ('strchr', 'strpbrk'):
+                        seps.add(x['l']['name'])
+            val = t.ev.get('rhs') if t.ev['k'] == 'store' else t.ev.get('init') if t.ev['k'] == 'decl' else None
+            tgt = t.ev['lhs']['name'] if t.ev['k'] == 'store' and is_var(t.ev.get('lhs')) else t.ev.get('var') if t.ev['k'] == 'decl' else None
+            if tgt and isinstance(val, dict) and any(isinstance(x, dict) and x.get('k') == 'callref' and x.get('callee') in ('strchr', 'strpbrk') for x in walk(val)):
+                seps.add(tgt)
+        for bid in f.blocks:
+            c = f.term_cond(bid)
+            for x in walk(c) if c is not None else ():
+                if isinstance(x, dict) and x.get('k') == 'bin' and x.get('op') == '=' and is_var(x.get('l')) and isinstance(x.get('r'), dict) and x['r'].get('k') == 'callref' and x['r'].get('callee') in ('strchr', 'strpbrk'):
+                    seps.add(x['l']['name'])
+
+        def byte_of(l):
+            """the pointer variable whose current byte the expression reads (`*q`, `q[0]`), or None"""
+            if isinstance(l, dict) and l.get('k') == 'un' and l.get('op') == '*' and is_var(l.get('e')):
+                return l['e']['name']
+            if isinstance(l, dict) and l.get('k') == 'idx' and is_var(l.get('base')) and const_of(l.get('index')) == 0:
+                return l['base']['name']
+            return None
+
+        def on_edge2(st, e):
+            r = rules.edge_rel(e)
+            if not r or st == 'nonblank':
+                return st
+            l, op, rr = r
+            if op == '!=' and const_of(rr) == 0 and isinstance(l, dict) and l.get('k') in ('idx', 'un') and any(isinstance(x, dict) and x.get('k') == 'callref' and x.get('callee') == 'strspn' for x in walk(l)):
+                return 'nonblank'
+            q = byte_of(l)
+            if q in seps:
+                if op == '!=' and const_of(rr) == 32:
+                    return 'skipped'
+                if st == 'skipped' and op == '!=' and const_of(rr) == 0:
+                    return 'nonblank'
+            return st
+        before2, _, _, _ = f.forward('none', lambda st, t: st, on_edge2)
+        for site, nm in [(s, 'stored')] + [(t, 'forwarded to the query builder') for t in f.calls() if b in P.callees(t, False)]:
+            sts = before2.get(site.key, set())
+            R.ob('C06.GRD.2', bool(sts) and sts == {'nonblank'}, site, 'the password is %s only after a test that something other than blanks follows the account' % nm, key='pw:%s:nonblank' % nm.split()[0])
     # "<mode> matches ([+-][x!]*)+": a prefix with any other character is not a <mode>, the text is an ordinary password
     # (not "<modes> <account> <password>") and nothing of it is stored or forwarded.  In the prefix scanner every
     # character outside the cases it handles leads away from the store.
